@@ -62,6 +62,19 @@ def run(ctx):
                 c = ICase(name, "serde", sets, cs[0], cs[1:], extra=str(at), kind="snapshot", meta={"at": at})
                 c.base = bi
                 icases.append(c)
+    # every variant of the MAInstance enum (all 15 averaging kinds) inside an indicator, snapshot before every step
+    for t in tabs:
+        if t["config"] not in ("Envelopes", "RelativeStrengthIndex"):
+            continue
+        r = ctx.rng.fork("c13k-" + t["config"])
+        cs, regime = ind.candles_for(r, 41)
+        for sets in ind.ma_kind_configs(t):
+            base = ICase(t["config"], "run", sets, cs[0], cs[1:], kind="plain")
+            bi = len(icases)
+            icases.append(base)
+            ce = ICase(t["config"], "serde_each", sets, cs[0], cs[1:], extra="6", kind="snapshot-each")
+            ce.base = bi
+            icases.append(ce)
     impl, _ = ctx.run_suite("indicator-snapshots", icases, "", model=False, theorem="Properties/C13.v (C13_derives_complete, C13_struct_roundtrip)")
     for i, c in enumerate(icases):
         if not hasattr(c, "base") or impl[i] is None or impl[c.base] is None:
